@@ -28,6 +28,11 @@ def run(ctx):
         from ..rules_flow import check_nd
 
         check_nd(ctx, led, v, rule="C07.reparse.nd")
+        # clean_vector(), == and hash are functions of the object: no call may change what a later
+        # call of them returns
+        from ..rules_access import check_accessors
+
+        check_accessors(ctx, led, v, rules=("pure",), prefix="C07.pure", only=("clean_vector", "__eq__", "__hash__"))
         for label, (seen, val, st) in emitted.items():
             n += len(seen)
     led.require_min("C07.emit", n, 100, "emitted fields analysed (14 + 2x22 + 2x32)")
